@@ -314,7 +314,7 @@ ATTRS_T = lambda g: ("corr-attrs-" + g, ["attrs", "-gen", g, "-full"])
 FN = ("corr-fn", ["fn"])
 
 RULE_LOOP = ("theorems over the Coq model of the token loop (all token lists, all policies); tie: write-chunk sequences of the implementation vs the "
-             "extracted model on (a) every sequence of <=3 tokens over 26 archetypes and <=4 over 12 core archetypes for 6 policies (exhaustive), "
+             "extracted model on (a) every sequence of <=3 tokens over 28 archetypes and <=4 over 12 core archetypes for 6 policies (exhaustive), "
              "(b) random/hand policies x generated documents (trees, tag soup, byte mutations); oracle: independent check of the property on the "
              "real output. non-trivial = distinct observed outputs / cases that reach the property's mechanism")
 
